@@ -51,7 +51,7 @@ def new_op(rng, kind, idn=0, small=False, **over):
             # requested lengths that are not multiples of 8 are rounded up by the library
             op["L"] = rng.choice([8, 16, 32, 64, 128, 256, 24, 10, 20, 44, 100] if not small else [8, 16, 12])
             op["interp"] = rng.choice(INTERPS)
-            op["F"] = rng.choice([2, 4, 16, 128, 256] + ([1] if op["interp"] in ("Linear", "Nearest") else []))
+            op["F"] = rng.choice([2, 4, 16, 128, 256, 3, 100, 160] + ([1] if op["interp"] in ("Linear", "Nearest") else []))
             op["chunk"] = rng.choice([1, 3, 8, 32, 64, 100, 256, 512, 1024] if not small else [1, 2, 4, 8, 16])
             op["window"] = rng.choice(WINDOWS)
         op["signal"] = "index"
@@ -345,7 +345,7 @@ def impulse_history(rng, kind):
     n = new_op(rng, kind, r=rj(r), maxrel=rj(Fraction(2)), signal="impulse", T=rng.choice([32, 64]), ch=1,
                probe="dispatch")
     n["L"] = rng.choice([32, 64, 128, 256, 40, 50, 100])
-    n["F"] = rng.choice([16, 128, 256])
+    n["F"] = rng.choice([16, 128, 256, 160, 100])
     n["interp"] = rng.choice(["Cubic", "Linear", "Quadratic"])
     n["chunk"] = rng.choice([128, 256, 512])
     pos = rng.randrange(n["L"], n["L"] + 600)
